@@ -1,2 +1,6 @@
+import QuicProofs.Bridge.FrameTable
 import QuicProofs.Bridge.VarInt
+import QuicProofs.Lemmas.RecvFlow
+import QuicProofs.Lemmas.RecvViolations
+import QuicProofs.Props.C04RecvFlow
 import QuicProofs.Props.C05VarInt
